@@ -29,6 +29,8 @@ REPOSITORY = urljoin(REPOSITORY_BASE, 'templates.xml')
 CACHE_AGE = timedelta(days=1)
 CACHE_DIR = "odml.cache"
 
+_UNKNOWN = object()
+
 
 # TODO after prototyping move functions common with
 # terminologies to a common file.
@@ -139,10 +141,15 @@ class TemplateHandler(dict):
         # nested (include) odML files.
         print("\nLoading file %s" % url)
 
-        if url in self:
-            doc = self[url]
-        elif url in self.loading:
-            self.loading[url].join()
+        # Other threads may add or remove entries between two accesses: never look
+        # an entry up twice.
+        doc = self.get(url, _UNKNOWN)
+        if doc is not _UNKNOWN:
+            return doc
+
+        thread = self.loading.get(url)
+        if thread is not None:
+            thread.join()
             self.loading.pop(url, None)
             doc = self.load(url)
         else:
@@ -172,8 +179,9 @@ class TemplateHandler(dict):
             print("Failed to load '%s' due to parser errors:\n %s" % (url, exc))
             return None
 
-        self[url] = doc
-        return doc
+        # The first result published for a URL stays the cached one: concurrent
+        # loads of the same URL all return the same object.
+        return self.setdefault(url, doc)
 
     def deferred_load(self, url):
         """
@@ -184,5 +192,7 @@ class TemplateHandler(dict):
         if url in self or url in self.loading:
             return
 
-        self.loading[url] = threading.Thread(target=self._load, args=(url,))
-        self.loading[url].start()
+        # Only started threads are registered: a registered thread can always be joined.
+        thread = threading.Thread(target=self._load, args=(url,))
+        thread.start()
+        self.loading.setdefault(url, thread)
